@@ -168,3 +168,37 @@ def expected_rs_row(prog: PyProgram, r: PyRow, kind_map: dict[str, str]) -> RsRo
 
 def operand_class(prog: PyProgram, name: str) -> PyClass:
     return prog.need_cls(prog.module(OPTABLE), name)
+
+
+def rs_exec_arms(rs: RustProgram) -> list[dict]:
+    """Arms of `match entry.kind` in LlamaExecutor::execute_with:
+    [{kinds:set[str], guard:expr|None, body:expr, ln:int, wild:bool}]"""
+    from .rsfacts import expr_text, pat_text, walk
+    fn = rs.fn(EVAL_RS, "LlamaExecutor::execute_with")
+    for st in fn.body["stmts"]:
+        e = st.get("e") if st.get("k") == "expr_stmt" else None
+        if e and e.get("k") == "match" and expr_text(e["e"]) == "entry.kind":
+            out = []
+            for arm in e["arms"]:
+                pat = arm["pat"]
+                alts = pat["cases"] if pat.get("k") == "p_or" else [pat]
+                kinds = set()
+                wild = False
+                for a in alts:
+                    t = pat_text(a)
+                    if t == "_":
+                        wild = True
+                    elif t.startswith("InstrKind::"):
+                        kinds.add(t.split("::")[-1])
+                    else:
+                        raise AnalysisError(f"execute_with: unsupported arm pattern {t}")
+                out.append({"kinds": kinds, "guard": arm.get("guard"), "body": arm["body"], "ln": arm["ln"], "wild": wild})
+            return out
+    raise AnalysisError("execute_with: top-level `match entry.kind` not found")
+
+
+def rs_arm_for(rs: RustProgram, kind: str, unguarded_only: bool = True) -> dict:
+    arms = [a for a in rs_exec_arms(rs) if kind in a["kinds"] and (a["guard"] is None or not unguarded_only)]
+    if len(arms) != 1:
+        raise AnalysisError(f"execute_with: expected exactly one unguarded arm for InstrKind::{kind}, found {len(arms)}")
+    return arms[0]
